@@ -234,6 +234,8 @@ package database
 // resultsOK: real entries, no duplicates, non-negative scores.
 //@ pure func resultsOK(db *Database, r []SearchResult) bool = allInDB(db, r) && distinctCmds(r) && nonneg(r)
 
+// ascInts: strictly increasing (opaque: unfolded only by the obligations that need it).
+//@ opaque func ascInts(s []int) bool = forall a, b int :: 0 <= a && a < b && b < len(s) ==> s[a] < s[b]
 //@ func (*Database).collectResults
 //@   requires scoresOK(db, scores, options)
 //@   modifies nothing
@@ -250,7 +252,7 @@ package database
 //@   invariant forall a, b int :: 0 <= a && a < b && b < len(docIDs) ==> docIDs[a] != docIDs[b]
 //@ loop 2
 //@   invariant fresh(docIDs) && fresh(results) && len(results) == $i && len(docIDs) == len(scores) && cap(results) == len(scores) && gatesOK(results, options) && (cap(docIDs) > 0 && cap(results) > 0 ==> base(docIDs) != base(results))
-//@   invariant forall a, b int :: 0 <= a && a < b && b < len(docIDs) ==> docIDs[a] < docIDs[b]
+//@   invariant ascInts(docIDs)
 //@   invariant forall k int :: 0 <= k && k < len(docIDs) ==> (docIDs[k] in scores)
 //@   invariant forall d int :: (d in scores) ==> (exists k int :: 0 <= k && k < len(docIDs) && docIDs[k] == d)
 //@   invariant forall k int :: 0 <= k && k < len(results) ==> results[k].Command == &db.Commands[docIDs[k]]
